@@ -16,7 +16,8 @@ RULE = (
     "Generated UFL objects (forms of all integral types incl. prisms, interior facets, several rules, mixed elements; and "
     "expressions) x generated process histories executed in a fresh child interpreter before the target compilation: creation "
     "of unrelated meshes/spaces/coefficients (advancing UFL counters), compilation of 0-2 other generated specs in the same "
-    "process (also with sum_factorization / other scalar type), calls of get_options with other values; two families - target "
+    "process (also with sum_factorization / other scalar type), the target itself compiled earlier with other options (table tolerances, scalar type, part), "
+    "calls of get_options with other values; the target is compiled with default, loose or (almost) exact table tolerances; two families - target "
     "objects created before the history (equal counters: isolates state leaks and hash-seed dependence) or after it (counters "
     "differ); x PYTHONHASHSEED drawn from a generated set; x language C / numba. Oracle: the text returned by "
     "compile_ufl_objects is byte-identical to the text of the empty-history, hash-seed-0 child. Non-trivial = history with >= 1 "
@@ -46,7 +47,19 @@ def sibling_spec(target):
 def histories(draw, target=None, tp=False):
     steps = []
     for _ in range(draw(st.integers(0, 3))):
-        k = draw(st.sampled_from(["objects", "objects", "compile", "options", "sibling", "tp"]))
+        k = draw(st.sampled_from(["objects", "objects", "compile", "options", "sibling", "tp", "self", "self"]))
+        if k == "self":
+            # the target itself (rebuilt from its spec) compiled earlier in the same process with other options: every cache keyed
+            # by element / points / rule is hit, so state shared between compilations shows up
+            if target is None:
+                k = "objects"
+            else:
+                opts = draw(st.sampled_from([{}, {"table_rtol": 1e-3, "table_atol": 1e-3}, {"table_rtol": 1e-2, "table_atol": 1e-5}, {"scalar_type": "float32"},
+                                             {"scalar_type": "complex128"}, {"part": "diagonal"}]))
+                if tp:
+                    opts = dict(opts, sum_factorization=draw(st.booleans()))
+                steps.append(["compile", target, opts])
+                continue
         if k == "sibling":
             sib = sibling_spec(target) if target is not None else None
             if sib is None:
@@ -82,6 +95,9 @@ def cases(draw, nvariants):
         options = {"sum_factorization": True}
     else:
         target = draw(strategies.form_specs(P_FORMS))
+    if r != 1:
+        # the target's own table tolerances: default, looser, or (almost) exact - the last one makes clamped round-off noise visible
+        options = draw(st.sampled_from([{}, {}, {"table_rtol": 1e-3, "table_atol": 1e-4}, {"table_rtol": 1e-14, "table_atol": 1e-20}, {"table_rtol": 0.0, "table_atol": 0.0}]))
     variants = []
     for _ in range(nvariants):
         variants.append({"steps": draw(histories(strategies.strip_meta(target), tp=(r == 1))), "hashseed": draw(st.sampled_from([0, 1, 2, 3, 7, 42, 1234, 99991, 4294967295])),
@@ -160,7 +176,7 @@ def shard(shard, nshards, n, nvariants, seed):
 
 def run(tier: str) -> int:
     run_ = Run(PROP, tier, "exploration", RULE)
-    n, nv = (2, 4) if tier == "quick" else (20, 10)
+    n, nv = (3, 4) if tier == "quick" else (20, 10)
     for part in run_shards(shard, 16, n=n, nvariants=nv, seed=verif_seed()):
         run_.merge(part)
     run_.assumptions = [
